@@ -2,15 +2,16 @@
   C02 / C05 — index arithmetic.
 
   List-level transcriptions of what the model's `listRange`, `listTrim`, `listRowAt`, `zRangeRank`,
-  `zDeleteRank` and `zRangeScore` compute on the already ordered rows, the deviation classifiers
-  for the places where SQLite's `LIMIT` does not clamp (D01; the raw `limit a, b - a + 1` of the
-  rank queries, which both callers now guard — D09 is repaired), and the lemmas that the property
+  `zDeleteRank` and `zRangeScore` compute on the already ordered rows, the classifiers of where a RAW
+  SQLite `LIMIT` does not clamp (the raw `limit s, e - s + 1` of the list window — D01, repaired: the
+  `bounds` CTE clamps; the raw `limit a, b - a + 1` of the rank queries, which both callers now guard —
+  D09, repaired), and the lemmas that the property
   file `RedkaModel/Props/C02idx.lean` is built from.
 
   The key observation: both `sqlLimit s c l` and the Redis rule are a *prefix of the same suffix*
   `l.drop (max s 0)`; two prefixes of one list are equal iff they have the same length
   (`List.take_eq_take_iff`), so equality of model and spec is a linear-arithmetic statement for
-  every list whatsoever, and the classifiers below are exact, not merely sufficient.
+  every list whatsoever, and the raw-form classifiers below are exact, not merely sufficient.
 -/
 import RedkaModel.Spec.Seq
 import RedkaModel.Model.List
@@ -67,27 +68,6 @@ def modelOffsetCount {α} (l : List α) (offset count : Int) : List α :=
 
 /-! ### classifiers -/
 
-/-- D01, on the normalised bounds `s`, `e` (negative bounds already had `len` added).
-
-* `0 ≤ s`: the offset is right; the only thing that goes wrong is a *negative count*
-  (`e + 1 < s`), which SQLite reads as "no limit": the whole tail from `s` comes back instead of
-  nothing. Harmless when `s` is past the end.
-* `s < 0`: SQLite clamps the offset to 0 but the count `e - s + 1` is still measured from the
-  unclamped start, so too many rows (or, when it is negative, all rows) come back. Harmless when
-  the list is empty, when the count is exactly 0, or when the Redis answer is already the whole
-  list (`e + 1 ≥ n`). -/
-def sliceDeviates (n : Nat) (s e : Int) : Bool :=
-  if 0 ≤ s then decide (s < n ∧ e + 1 < s)
-  else decide (0 < n ∧ e + 1 ≠ s ∧ e + 1 < n)
-
-/-- D01 classifier for `Trim`: the window computed by the `bounds` CTE is not the Redis window -/
-def trimDeviates (n : Nat) (a b : Int) : Bool :=
-  sliceDeviates n (Spec.normIdx n a) (Spec.normIdx n b)
-
-/-- D01 classifier for `Range`: as for `Trim`, unless the Go shortcut returned first -/
-def rangeDeviates (n : Nat) (a b : Int) : Bool :=
-  !Model.rangePrecheck a b && trimDeviates n a b
-
 /-- where the RAW statement `limit a, b - a + 1` (both ranks non-negative) is not the Redis rank
 slice: negative count, offset inside. No caller reaches it: `zRangeRank` always returned early on
 `a > b`, and `zDeleteRank` does since the repair of D09 (this was the D09 classifier). -/
@@ -126,12 +106,26 @@ theorem clampSlice_eq_take {α} (l : List α) (s e : Int) :
   simp only []
   split <;> simp
 
-/-- the heart of it: on normalised bounds the LIMIT window is the Redis slice exactly when the
-classifier is off -/
-theorem sqlLimit_eq_clampSlice_iff {α} (l : List α) (s e : Int) :
-    sqlLimit s (e - s + 1) l = clampSlice l s e ↔ sliceDeviates l.length s e = false := by
+/-- the heart of it: on normalised bounds the clamped LIMIT window IS the Redis slice -/
+theorem sqlLimit_eq_clampSlice {α} (l : List α) (s e : Int) :
+    sqlLimit (max 0 s) (max 0 (e - max 0 s + 1)) l = clampSlice l s e := by
+  rw [sqlLimit_eq_take, clampSlice_eq_take]
+  have h1 : (max (max 0 s) 0).toNat = (max s 0).toNat := by omega
+  rw [h1, List.take_eq_take_iff, List.length_drop]
+  split <;> split <;> omega
+
+/-- what D01 was: the RAW window `limit s, e - s + 1` on normalised bounds is the Redis slice exactly when
+this is off (`0 ≤ s`: a negative count, read as "no limit", with the start inside the list; `s < 0`: the
+count is measured from the unclamped start, so too many rows come back). The
+`bounds` CTE now clamps (`max(0, start)`, `max(0, stop - start + 1)`), so no caller reaches the raw form. -/
+def rawSliceDeviates (n : Nat) (s e : Int) : Bool :=
+  if 0 ≤ s then decide (s < n ∧ e + 1 < s)
+  else decide (0 < n ∧ e + 1 ≠ s ∧ e + 1 < n)
+
+theorem raw_sqlLimit_eq_clampSlice_iff {α} (l : List α) (s e : Int) :
+    sqlLimit s (e - s + 1) l = clampSlice l s e ↔ rawSliceDeviates l.length s e = false := by
   rw [sqlLimit_eq_take, clampSlice_eq_take, List.take_eq_take_iff, List.length_drop]
-  unfold sliceDeviates
+  unfold rawSliceDeviates
   by_cases hs : 0 ≤ s
   · simp only [hs, if_true, decide_eq_false_iff_not]
     split <;> split <;> omega
@@ -145,7 +139,8 @@ theorem bound_some (n x : Int) : Model.bound (some n) x = some (Spec.normIdx n x
 /-- with a cached length the `bounds` CTE never yields NULL -/
 theorem rangeWindow_some {α} (n a b : Int) (l : List α) :
     Model.rangeWindow (some n) a b l =
-      some (sqlLimit (Spec.normIdx n a) (Spec.normIdx n b - Spec.normIdx n a + 1) l) := by
+      some (sqlLimit (max 0 (Spec.normIdx n a))
+        (max 0 (Spec.normIdx n b - max 0 (Spec.normIdx n a) + 1)) l) := by
   unfold Model.rangeWindow
   rw [bound_some, bound_some]
 
@@ -153,29 +148,33 @@ theorem rangeWindow_some_ne_none {α} (n a b : Int) (l : List α) :
     Model.rangeWindow (some n) a b l ≠ none := by
   rw [rangeWindow_some]; exact Option.some_ne_none _
 
-/-- D02: without a cached length (`len` is NULL: the key is missing) the window is `LIMIT NULL`
-exactly when a bound is negative -/
-theorem rangeWindow_none_iff {α} (a b : Int) (l : List α) :
-    Model.rangeWindow none a b l = none ↔ a < 0 ∨ b < 0 := by
+/-- D02 (repaired): without a cached length (`len` is NULL: the key is missing) the length counts as 0 and
+the window is defined -/
+theorem rangeWindow_ne_none {α} (len : Option Int) (a b : Int) (l : List α) :
+    Model.rangeWindow len a b l ≠ none := by
   unfold Model.rangeWindow Model.bound
   by_cases ha : a < 0 <;> by_cases hb : b < 0 <;> simp [ha, hb]
 
+theorem rangeWindow_nil {α} (len : Option Int) (a b : Int) :
+    Model.rangeWindow len a b ([] : List α) = some [] := by
+  unfold Model.rangeWindow Model.bound
+  by_cases ha : a < 0 <;> by_cases hb : b < 0 <;> simp [ha, hb, sqlLimit]
+
 theorem modelTrimKeep_eq {α} (l : List α) (a b : Int) :
     modelTrimKeep l a b =
-      sqlLimit (Spec.normIdx l.length a)
-        (Spec.normIdx l.length b - Spec.normIdx l.length a + 1) l := by
+      sqlLimit (max 0 (Spec.normIdx l.length a))
+        (max 0 (Spec.normIdx l.length b - max 0 (Spec.normIdx l.length a) + 1)) l := by
   unfold modelTrimKeep
   rw [rangeWindow_some]
 
 theorem modelRange_eq {α} (l : List α) (a b : Int) :
     modelRange l a b = if Model.rangePrecheck a b then [] else modelTrimKeep l a b := rfl
 
-theorem trim_eq_iff {α} (l : List α) (a b : Int) :
-    modelTrimKeep l a b = Spec.ltrim l a b ↔ trimDeviates l.length a b = false := by
+theorem trim_eq {α} (l : List α) (a b : Int) : modelTrimKeep l a b = Spec.ltrim l a b := by
   rw [modelTrimKeep_eq]
-  unfold Spec.ltrim trimDeviates
+  unfold Spec.ltrim
   rw [lrange_eq_clampSlice]
-  exact sqlLimit_eq_clampSlice_iff l _ _
+  exact sqlLimit_eq_clampSlice l _ _
 
 /-- whenever the Go shortcut fires Redis selects nothing too -/
 theorem lrange_of_precheck {α} (l : List α) (a b : Int) (h : Model.rangePrecheck a b = true) :
@@ -186,15 +185,13 @@ theorem lrange_of_precheck {α} (l : List α) (a b : Int) (h : Model.rangePreche
   rw [if_pos]
   split <;> split <;> omega
 
-theorem range_eq_iff {α} (l : List α) (a b : Int) :
-    modelRange l a b = Spec.lrange l a b ↔ rangeDeviates l.length a b = false := by
+theorem range_eq {α} (l : List α) (a b : Int) : modelRange l a b = Spec.lrange l a b := by
   rw [modelRange_eq]
-  unfold rangeDeviates
   by_cases hp : Model.rangePrecheck a b = true
   · simp [hp, lrange_of_precheck l a b hp]
   · have hp' : Model.rangePrecheck a b = false := by simpa using hp
-    simp only [hp', Bool.false_eq_true, if_false, Bool.not_false, Bool.true_and]
-    exact trim_eq_iff l a b
+    simp only [hp', Bool.false_eq_true, if_false]
+    exact trim_eq l a b
 
 /-! ### LINDEX / LSET -/
 
